@@ -388,7 +388,7 @@ def replay_geotherm(chk, ge_mod, opts, what):
         write_tables(tmp, temps, press, f)
         os.chdir(tmp)
         pc, tc = (opts.get("p_col", "P"), opts.get("t_col", "T")) if opts else ("P", "T")
-        pts = [(10.0, 300.0), (20.0, 500.0), (30.0, 1000.0)]
+        pts = [(30.0, 1000.0), (10.0, 300.0), (20.0, 500.0), (10.0, 400.0)]     # a path listed in no particular order (deep to shallow, back again)
         with open("geo.txt", "w") as fp:
             fp.write("%s %s D\n" % (pc, tc) + "".join("%g %g %g\n" % (p, t, 10 * i) for i, (p, t) in enumerate(pts)))
         args = ["-g", "geo.txt", "-v", "bm"] + (["--p-col", pc, "--t-col", tc] if opts else [])
